@@ -53,7 +53,7 @@ func c05Targets() []string {
 func TestC05(t *testing.T) {
 	r := NewReporter(t)
 	defer r.Done()
-	r.Rule("(a) writing disabled: all sequences of length <= depth over 5 mutating opcodes x 10 target kinds + non-mutating opcodes; oracle = refusal code + no mutating leaf filesystem operation + whole sentinel tree unchanged. (b) writing enabled: sequences over create/write(payload sizes 0..131073, chunkings)/delete/mkdir/rmdir on every target kind; oracle = model result codes + only the named target changes + uploaded bytes equal on disk and when read back. (e) the store failing (ENOSPC, EIO, partial write) at every write of a 70000-byte upload is reported truthfully. (d) two overlapping uploads / upload with download under every interleaving with <= 1 (quick) / 2 (thorough) preemptions: stored bytes exact. (c) library: every write-type call on every generated/decrypting view returns EPERM and changes nothing. distinct by (mode, executed request sequence)")
+	r.Rule("(a) writing disabled: all sequences of length <= depth over 5 mutating opcodes x 10 target kinds + non-mutating opcodes; oracle = refusal code + no mutating leaf filesystem operation + whole sentinel tree unchanged. (b) writing enabled: sequences over create/write(payload sizes 0..131073, chunkings)/delete/mkdir/rmdir on every target kind, consecutive uploads under 9 pairs of string-related names; oracle = model result codes + only the named target changes + uploaded bytes equal on disk and when read back. (e) the store failing (ENOSPC, EIO, partial write) at every write of a 70000-byte upload is reported truthfully. (d) two overlapping uploads / upload with download under every interleaving with <= 1 (quick) / 2 (thorough) preemptions: stored bytes exact. (c) library: every write-type call on every generated/decrypting view returns EPERM and changes nothing. distinct by (mode, executed request sequence)")
 	cw := buildC05World(t)
 	defer cw.w.Cleanup()
 	w := cw.w
@@ -193,6 +193,20 @@ func TestC05(t *testing.T) {
 		runB([]Req{alphaB[idx/nB], alphaB[idx%nB]}, Delivery{})
 	}
 	_ = depthB
+	// two uploads in a row whose names are related as strings (one a prefix of the other, an added extension, another
+	// case, a prefix of the directory the first one lies in), without a close marker in between: each file is created
+	// and holds exactly its own payload
+	for _, pair := range [][2]string{{"/w/new.bin.bak", "/w/new.bin"}, {"/w/new.bin", "/w/new.bin.bak"}, {"/w/emptyd/x.bin", "/w/empty"}, {"/w/emptyd/x.bin", "/w/emptyd/x"},
+		{"/w/old.txt.tmp", "/w/old.txt"}, {"/w/new.bin", "/w/NEW.BIN"}, {"/w/new.bin", "/w/./new.bin"}, {"/w/emptyd/new.bin", "/w/new.bin"}, {"/w/new.bin", "/w/emptyd/new.bin"}} {
+		for _, tail := range [][]Req{nil, {mkReq(opCreateFile, "/w")}, {mkReq(opCreateFile, pair[0]), wrReq([]byte("third"))}} {
+			caseIdx++
+			if !r.Mine(caseIdx) {
+				continue
+			}
+			seq := append([]Req{mkReq(opCreateFile, pair[0]), wrReq(payloads[2][:3000]), mkReq(opCreateFile, pair[1]), wrReq(payloads[3][:2000]), wrReq([]byte("tail"))}, tail...)
+			runB(seq, Delivery{})
+		}
+	}
 	// create -> write x2 -> (second create | delete | nothing) with every payload pair and chunking
 	for _, tg := range []string{"/w/new.bin", "/w/old.txt"} {
 		for i, p1 := range payloads {
